@@ -129,13 +129,13 @@ def l3_superposition(chk, ctx, rng, n, tier):
                 kw[nm0] = (lambda t, v=nus[0]: v * (1 + 0.3 * math.sin(40 * t)))
                 if isinstance(theta, float):
                     kw['theta0'] = (lambda t, v=theta: v * (1 + 0.2 * t))
-            return integrate(dadi, d, phi.copy(), xx, T, **kw)
+            return integrate(dadi, d, phi, xx, T, **kw)        # the caller's arrays are passed as they are (and re-used below)
         key = 'superposition:%dD:varying=%s' % (d, varying)
         chk.l3((key, tuple(fr), tuple(nm)))
         inp = dict(d=d, pts=pts, nus=nus, ms=str(ms), gammas=gammas, hs=hs, frozen=fr, nomut=nm, th1=th1, th2=th2, a=a, b=b, T=T, varying=varying)
         try:
-            r12 = run(a * phi1 + b * phi2, a * th1 + b * th2)
             r1 = run(phi1, th1); r2 = run(phi2, th2)
+            r12 = run(a * phi1 + b * phi2, a * th1 + b * th2)   # built from the same phi1, phi2 after they were integrated
         except Exception as e:
             chk.fail(key + ':raises:' + type(e).__name__, 'integrator raises %r' % (e,), inp); continue
         ref = a * r1 + b * r2
@@ -166,8 +166,8 @@ def l3_rescale(chk, ctx, rng, n, tier):
         chk.l3((key, tuple(fr), c == 2.0 ** round(math.log2(c)) if c > 0 else False))
         inp = dict(d=d, pts=pts, c=c, nus=nus, ms=str(ms), gammas=gammas, hs=hs, frozen=fr, nomut=nm, theta0=th, T=T, varying=varying)
         try:
-            r = integrate(dadi, d, phi.copy(), xx, T, **kw)
-            rc = integrate(dadi, d, phi.copy(), xx, c * T, **kwc)
+            r = integrate(dadi, d, phi, xx, T, **kw)
+            rc = integrate(dadi, d, phi, xx, c * T, **kwc)        # same starting density object, second parameterisation
         except Exception as e:
             chk.fail(key + ':raises:' + type(e).__name__, 'integrator raises %r' % (e,), inp); continue
         ok, err, scale = close(rc, r, rtol=1e-9)
